@@ -140,7 +140,9 @@ CLAIMED = {
              "(termination within fuel). Memfs/WalkExact.v reads the property off the recursion for every well-formed state without follow: no "
              "errors and exactly the entries the depth window and filter select, all of them, each once; parents before contents (after with "
              "contents_first); siblings in name order grouped by kind with dirs_first / files_first; paths/dirs/files/all_* return exactly the "
-             "entries strictly below an existing directory (one level for the shallow ones) of the asked kind, each once, never the argument. Also: "
+             "entries strictly below an existing directory (one level for the shallow ones) of the asked kind, each once, never the argument; "
+             "Memfs/WalkLex.v: a sorted traversal with none of follow / dirs_first / files_first / contents_first yields its paths in strictly increasing "
+             "lexicographic order, which determines the whole sequence from the set. Also: "
              "no panic, nothing a filter rejects is yielded, independence of the descriptor cap. The mirror is compared with the real iterator on "
              "random trees (links, cycles, dangling) x the cross-product of options; the driver compares machine and recursion on every explored "
              "call; every observed sequence is also judged by tools/walkspec.py. Memfs/WalkFollow.v proves the denotation is always defined, "
@@ -213,7 +215,9 @@ CLAIMED = {
              "reference chown (Memfs/RefineChown.v); and for whole histories (Memfs/RefineHistory.v): a reference filesystem working on the flat tree "
              "alone (resolving its own arguments against the tree's cwd) such that from every well-formed kind-sound state - the fresh "
              "filesystem in particular - ANY history of mkfile, mkdir_p / mkdir_m, write_all / write_lines, append_all / append_line / append_lines, read_all / read_lines, "
-             "remove, remove_all (off the root), symlink, readlink / readlink_abs, move_p (Memfs/RefineMove.v), set_cwd, cwd, abs, chown without follow and the queries "
+             "remove, remove_all (off the root), symlink, readlink / readlink_abs, move_p (Memfs/RefineMove.v), set_cwd, cwd, root, abs, chown without follow, chmod with both octal values and without follow "
+             "(Memfs/RefineChmod.v), mkfile_m, the listing helpers paths / dirs / files / all_paths / all_dirs / all_files (Memfs/RefineList.v: the qualifying paths "
+             "below the directory in increasing lexicographic order, stated without a traversal) and the queries "
              "(exists, is_dir, is_file, is_symlink, is_symlink_dir, is_exec, is_readonly, mode, owner, uid, gid) gives call by call exactly the "
              "reference's value or error kind and ends in exactly the reference's tree (history_refines). move_p is specified exactly and proved in Memfs/WfMove.v (C09). "
              "The mirror is tied to the real Memfs by a model-guided BFS of every reachable state of a bounded namespace x the full call "
